@@ -12,7 +12,7 @@ open C10
 * module apply: `(AC (C <forest> …) <routine index> <op>)` → `(C <forest> …)` or `none`. -/
 def kindOf (name : String) (n : Nat) : Option Kind :=
   match name with
-  | "stmt" => some .stmt | "astmt" => some .astmt | "block" => some .block | "loop" => some (.loop n)
+  | "stmt" => some .stmt | "astmt" => some .astmt | "codeBlock" => some .codeBlock | "block" => some .block | "loop" => some (.loop n)
   | "ompParallel" => some .ompParallel | "ompDo" => some (.ompDo n)
   | "ompParallelDo" => some (.ompParallelDo n) | "ompTeamsDPD" => some (.ompTeamsDPD n)
   | "ompLoop" => some (.ompLoop n)
@@ -27,7 +27,7 @@ def kindOf (name : String) (n : Nat) : Option Kind :=
   | _ => none
 
 def kindName : Kind → String × Nat
-  | .stmt => ("stmt", 0) | .astmt => ("astmt", 0) | .block => ("block", 0) | .loop d => ("loop", d)
+  | .stmt => ("stmt", 0) | .astmt => ("astmt", 0) | .codeBlock => ("codeBlock", 0) | .block => ("block", 0) | .loop d => ("loop", d)
   | .ompParallel => ("ompParallel", 0) | .ompDo c => ("ompDo", c) | .ompParallelDo c => ("ompParallelDo", c)
   | .ompTeamsDPD c => ("ompTeamsDPD", c) | .ompLoop c => ("ompLoop", c)
   | .ompSingle nw => ("ompSingle", if nw then 1 else 0) | .ompMaster => ("ompMaster", 0)
